@@ -72,7 +72,7 @@ def main():
         own = label.split("-")[0]
         mark = "CAUGHT" if hits else ("exit2" if errs else "missed")
         if hits: caught += 1
-        print("%-8s %-7s %s %s" % (label, mark, " ".join(hits), " ".join(errs)))
+        print("%-8s %-7s %s %s" % (label, mark, " ".join(hits), (" ".join(errs))[:150]))
     print("caught %d of %d" % (caught, len(res)))
     if a.json:
         json.dump(res, open(a.json, "w"), indent=1)
